@@ -733,6 +733,16 @@ impl Ctx {
                         }
                         Ok(())
                     }
+                    // a generated case the oracle refuses as outside its domain (not a harness panic) is a
+                    // rejected draw, not a verdict: counted, and the run fails its self-check only if such
+                    // draws are frequent (see finish)
+                    Err(fl) if !shrinking && fl.class.starts_with("HARNESS|") && !fl.class.starts_with("HARNESS|panic") => {
+                        let mut l = loc.borrow_mut();
+                        l.label(&format!("rejected-draw:{}", fl.class));
+                        l.label("rejected-draws");
+                        passed.set(passed.get() + 1);
+                        Ok(())
+                    }
                     Err(fl) => {
                         if shrinking {
                             // keep to the class being shrunk
@@ -917,6 +927,12 @@ impl Ctx {
                 eprintln!("SELF-CHECK FAILED property={} {}", self.prop, why);
                 s.selfcheck.push(why);
             }
+        }
+        let rejected = *s.total.labels.get("rejected-draws").unwrap_or(&0);
+        if rejected > 100 && rejected * 100 > s.total.evals.max(1) {
+            let why = format!("{} of {} generated cases were refused by the oracle as out of domain (generator needs fixing)", rejected, s.total.evals);
+            eprintln!("SELF-CHECK FAILED property={} {}", self.prop, why);
+            s.selfcheck.push(why);
         }
         let distinct = s.total.nt_keys.len() as u64 + s.total.nt_bulk;
         let samples: Vec<Value> = s
